@@ -6,15 +6,27 @@ use crate::c06::{Decl, OBJ_KINDS};
 use crate::common::*;
 use crate::probe::compile_src;
 
+/// names that one of the exporters has to change (reserved in HLSL or in Metal, ordinary identifiers in RSSL)
+pub const RENAMED: &[&str] = &["vector", "matrix", "fragment", "device", "constant", "thread", "kernel", "vertex"];
+
+thread_local! { static RENAME_STYLE: std::cell::Cell<bool> = std::cell::Cell::new(false); }
+
+/// the name of global i: g<i>, or - in the renaming style (entry written `<name>+R`) - a reserved word for resources
+fn gname(i: usize, d: &Decl) -> String {
+    if RENAME_STYLE.with(|c| c.get()) && i < RENAMED.len() && d.kind.starts_with("o:") { RENAMED[i].to_string() } else { format!("g{}", i) }
+}
+
 fn use_stmt(i: usize, d: &Decl) -> String {
     match d.kind.as_str() {
         "c" => format!("m{};", i),
-        _ if d.arr.is_some() => format!("g{}[0];", i),
-        _ => format!("g{};", i),
+        _ if d.arr.is_some() => format!("{}[0];", gname(i, d)),
+        _ => format!("{};", gname(i, d)),
     }
 }
 
 pub fn render(decls: &[Decl], dflt: u32, entry: &str, tg: (u32, u32, u32), uses: &[usize], helper_uses: &[usize], second_pipeline: bool) -> String {
+    let (entry, style) = match entry.strip_suffix("+R") { Some(e) => (e, true), None => (entry, false) };
+    RENAME_STYLE.with(|c| c.set(style));
     let mut s = String::from("struct S0 { uint m; };\n");
     for (i, d) in decls.iter().enumerate() {
         // length 0 stands for an unbounded array `[]`
@@ -31,7 +43,7 @@ pub fn render(decls: &[Decl], dflt: u32, entry: &str, tg: (u32, u32, u32), uses:
                 let ty = OBJ_KINDS.iter().find(|(n, _)| *n == name).map(|(_, t)| *t).unwrap_or(name);
                 let init = if d.ss { " = StaticSampler { Filter = MIN_MAG_MIP_LINEAR; }" } else { "" };
                 let bindless = if d.arr.map(|n| n >= 16 || n == 0).unwrap_or(false) { "[[rssl::bindless]] " } else { "" };
-                s += &format!("{}{}{}{} g{}{}{};\n", bindless, attr, storage, ty, i, arr, init);
+                s += &format!("{}{}{}{} {}{}{};\n", bindless, attr, storage, ty, gname(i, d), arr, init);
             }
         }
     }
@@ -130,7 +142,7 @@ pub fn gen_cases(seed: u64, n: usize, _thorough: bool) -> Vec<String> {
         let u = pick(&mut rng);
         let h = pick(&mut rng);
         let mode = ["all", "name", "nopipe", "one"][rng.below(4) as usize];
-        let entry = if rng.chance(1, 4) { "VSPS" } else if rng.chance(1, 6) { *rng.pick(&["TASKMESH", "MESH"]) } else if rng.chance(1, 3) { *rng.pick(&entries) } else { "CSMAIN" };
+        let entry: String = if rng.chance(1, 8) { "CSMAIN+R".to_string() } else { (if rng.chance(1, 4) { "VSPS" } else if rng.chance(1, 6) { *rng.pick(&["TASKMESH", "MESH"]) } else if rng.chance(1, 3) { *rng.pick(&entries) } else { "CSMAIN" }).to_string() };
         let tg = (rng.range(1, 8), rng.range(1, 4), rng.range(1, 2));
         let ds: Vec<String> = decls.iter().map(|d| d.word()).collect();
         out.push(format!("{} {} {} {} {} {} {} U{} H{} {}", target, rng.below(3), mode, entry, tg.0, tg.1, tg.2, u, h, ds.join(" ")).trim_end().to_string());
